@@ -16,7 +16,7 @@ void vx_havoc(void)
 #define VX_CS_BIT(s, i) (((s)->data.data[(i) / 64] >> ((i) % 64)) & 1)
 /* merge is recursive and implements composition by in-place merging (finding D9): abstract here.  What the callers' contracts need:
    it allocates nothing.  Ghost log of the calls. */
-unsigned g_mg_n; size_t g_mg_to, g_mg_from; bool g_mg_keep, g_mg_mark;
+unsigned g_mg_n; size_t g_mg_to, g_mg_from; bool g_mg_keep, g_mg_mark; unsigned g_it_mg; size8_t g_it_es;
 void vx_merge_abs(size_t to, size_t from, bool keep_end_state, bool mark_from_as_unreachable)
 __CPROVER_requires(to < b_sm.current_size && from < b_sm.current_size)
 __CPROVER_assigns(g_mg_n, g_mg_to, g_mg_from, g_mg_keep, g_mg_mark, __CPROVER_object_upto(b_sm.the_data, sizeof(b_sm.the_data)))
